@@ -27,7 +27,7 @@ Qed.
 (* a tuple / UDT component is framed with a 32-bit length: encodings of 2 GiB or more wrap *)
 Definition short_enough (r : mres) : Prop := forall b, r = Ok (Some b) -> blen b < 2 ^ 31.
 
-(* the two shapes marshalTuple writes as null (length -1) *)
+(* the two shapes marshalTuple writes as null (length -1) without calling Marshal *)
 Definition minus_one (iface : bool) (x : gval) : Prop := if iface then x = GNil else x = GPtr None.
 
 Section Nested.
@@ -46,20 +46,18 @@ Fixpoint good (ty : cqlty) (g : gval) {struct ty} : Prop :=
           | _ => True
           end
       | TTuple es =>
-          let tg (iface : bool) :=
+          let tg :=
             fix go (es : list cqlty) (l : list gval) {struct es} : Prop :=
               match es, l with
               | e :: es', x :: l' =>
-                  (good e x /\ short_enough (marshal pv e x)
-                   (* F-C12-4: a component that means null must have one of the two shapes written as -1 *)
-                   /\ (denote e x = Some None -> minus_one iface x)) /\ go es' l'
+                  (good e x /\ short_enough (marshal pv e x)) /\ go es' l'
               | _, _ => True
               end in
           match v with
-          | GIfaces l => tg true es l
-          | GStruct fs => tg false es (map snd fs)
-          | GSlice (Some l) => tg false es l
-          | GArray l => tg false es l
+          | GIfaces l => tg es l
+          | GStruct fs => tg es (map snd fs)
+          | GSlice (Some l) => tg es l
+          | GArray l => tg es l
           | _ => True
           end
       | TUdt fs =>
@@ -201,7 +199,7 @@ End NamedPv.
 Fixpoint tuple_ok (pv : Z) (iface : bool) (es : list cqlty) (l : list gval) : Prop :=
   match es, l with
   | e :: es', x :: l' =>
-      (elem_ok pv e x /\ short_enough (marshal pv e x) /\ (denote e x = Some None -> minus_one iface x)) /\ tuple_ok pv iface es' l'
+      (elem_ok pv e x /\ short_enough (marshal pv e x)) /\ tuple_ok pv iface es' l'
   | _, _ => True
   end.
 Fixpoint udt_ok (pv : Z) (v : gval) (fs : list (bytes * cqlty)) : Prop :=
@@ -245,7 +243,7 @@ Proof.
   - cbn in Hm, Hd. injection Hm as <-. injection Hd as <-. reflexivity.
   - destruct l as [|x l].
     + cbn in Hm, Hd. injection Hm as <-. injection Hd as <-. reflexivity.
-    + cbn [tuple_ok] in Hok. destruct Hok as [[Hel [Hshort Hnull]] Hrest].
+    + cbn [tuple_ok] in Hok. destruct Hok as [[Hel Hshort] Hrest].
       cbn [map tuple_items denote_tuple] in Hm, Hd. apply all_some_cons in Hd. destruct Hd as [ox [xs' [Hox [Hxs ->]]]].
       destruct (tuple_elem iface (marshal pv e) x) as [a| | |] eqn:Ea; try discriminate. cbn [rbind] in Hm.
       destruct (tuple_items iface (map (marshal pv) es) l) as [b| | |] eqn:Eb; try discriminate. cbn [rbind] in Hm. injection Hm as <-.
@@ -257,12 +255,8 @@ Proof.
         unfold framed, enc_opt, int_bytes. rewrite <- enc_int_spec. reflexivity.
       * destruct (marshal pv e x) as [data| | |] eqn:Em; try discriminate. cbn [rbind] in Ea.
         pose proof (Hel data ox Em Hox) as Henc. rewrite (framed_opt pv int_bytes e ox data Henc).
-        destruct data as [b0|].
-        -- rewrite int_bytes_append by (intros b1 E1; injection E1 as <-; apply Hshort; reflexivity).
-           injection Ea as <-. reflexivity.
-        -- (* the value means null but is not written as -1: excluded *)
-           exfalso. destruct ox as [v|]; [unfold encode_opt in Henc; destruct (encode_value pv e v); discriminate|].
-           apply Hnull in Hox. apply null_test in Hox. congruence.
+        rewrite int_bytes_append by (intros b1 E1; subst data; apply Hshort; reflexivity).
+        injection Ea as <-. reflexivity.
 Qed.
 
 Lemma by_tag_tagged {A} name (fs : list (bytes * bytes * A)) : forall acc,
@@ -306,15 +300,12 @@ Qed.
 (* ---- named forms of the local fixpoints of [good] ---------------------------------------------------------------- *)
 Section NamedGood.
 Variable pv : Z.
-Section T.
-Variable iface : bool.
 Fixpoint good_tuple (es : list cqlty) (l : list gval) : Prop :=
   match es, l with
   | e :: es', x :: l' =>
-      (good pv e x /\ short_enough (marshal pv e x) /\ (denote e x = Some None -> minus_one iface x)) /\ good_tuple es' l'
+      (good pv e x /\ short_enough (marshal pv e x)) /\ good_tuple es' l'
   | _, _ => True
   end.
-End T.
 Section U.
 Variable v : gval.
 Fixpoint good_udt (fs : list (bytes * cqlty)) : Prop :=
@@ -331,10 +322,10 @@ End NamedGood.
 
 Definition holds_for (pv : Z) (e : cqlty) : Prop := forall x, good pv e x -> elem_ok pv e x.
 
-Lemma good_tuple_ok pv iface es : Forall (holds_for pv) es -> forall l, good_tuple pv iface es l -> tuple_ok pv iface es l.
+Lemma good_tuple_ok pv iface es : Forall (holds_for pv) es -> forall l, good_tuple pv es l -> tuple_ok pv iface es l.
 Proof.
   induction 1 as [|e es He Hes IH]; intros l Hg; [exact I|]. destruct l as [|x l]; [exact I|].
-  cbn [good_tuple tuple_ok] in *. destruct Hg as [[H1 [H2 H3]] H4]. repeat split; auto.
+  cbn [good_tuple tuple_ok] in *. destruct Hg as [[H1 H2] H4]. repeat split; auto.
 Qed.
 
 Lemma good_udt_ok pv v fs : Forall (fun nf => holds_for pv (snd nf)) fs -> good_udt pv v fs -> udt_ok pv v fs.
@@ -420,7 +411,7 @@ Proof.
     cbn [marshal denote good] in *. destruct (peel g) as [v|]; [|eauto].
     assert (Hhold : Forall (holds_for pv) es).
     { eapply Forall_impl; [|exact IHes]. intros e He x Hx ob' ox'. apply He. exact Hx. }
-    assert (Hcore : forall iface l, good_tuple pv iface es l ->
+    assert (Hcore : forall iface l, good_tuple pv es l ->
               (if (length l =? length (map (marshal pv) es))%nat then rmap Some (tuple_items iface (map (marshal pv) es) l) else Err) = Ok ob ->
               (if (length l =? length es)%nat then option_map (fun xs => Some (VTuple xs)) (all_some (denote_tuple es l)) else None) = Some ox ->
               encode_opt pv (TTuple es) ox = Some ob).
@@ -434,6 +425,7 @@ Proof.
       assert (Hs : concat_opt (spec_tuple pv es xs) = Some bs) by (eapply tuple_items_spec; eauto using good_tuple_ok).
       change (option_map Some (concat_opt (spec_tuple pv es xs)) = Some (Some bs)). rewrite Hs. reflexivity. }
     destruct v as [| | | | | | | | | | | | | | | |[l|]|l|l| | | |sf| ]; cbn [marshal_tuple tuple_items_of] in *; try discriminate.
+    + exact (Hnone _ _ _ Hm Hd).
     + exact (Hcore false l Hg Hm Hd).
     + exact (Hcore true l Hg Hm Hd).
     + exact (Hcore false l Hg Hm Hd).
